@@ -124,6 +124,7 @@ type RPCPlan struct {
 	Role            string // "", "interest", "bystander", "disturber", "fresh"
 	pausedHandler   bool
 	pausedReader    bool // this RPC\'s consumer is parked behind a gate for part of the run
+	cancelWhenStalled string // "", "caller-paused", "handler-paused": the caller's context is cancelled once the run has stalled on this stream's full window
 	timeoutClass    string
 	timeoutRepeated string
 	awaitExpiry     bool
